@@ -26,7 +26,7 @@ import numpy as np
 BOUNDS = (
     "Grouper: every non-empty subset of <= 6 points of the 3x3 integer lattice (thorough: 4x4) in sorted, "
     "reversed and one seeded order, plus the same subsets scaled by 2.5 (half-integer distances) and with a "
-    "duplicated point, x min_separation in {1, sqrt2, 1.5, 2, 2.5, 5} (ties at exactly min_separation are "
+    "duplicated point, x min_separation in {1, sqrt2, 1.5, 2, 2.5, 5} (all six for subsets of <= 3 (thorough: 4) points, three of them in rotation for larger ones; ties at exactly min_separation are "
     "linked, the documented `fcluster` rule `<=`; the class docstring only promises `<`), x/y given as lists, "
     "arrays and Table columns; N=1.  Scenes: image 35x45 , 1-6 sources, types {isolated "
     "(>= 15 px apart), pair at 0.5/0.7/1/1.5/2/3/5 px, chain of 3-6 at 0.8/1/1.5 fwhm, dense chain of 3-6 at "
@@ -626,7 +626,7 @@ def _grouper_cases(ctx):
             for oi, od in enumerate(orders[: 3 if k > 1 else 1]):
                 xs = [pts[i][0] for i in od]
                 ys = [pts[i][1] for i in od]
-                tsel = ts if (ctx.thorough or k <= 3) else [ts[(n + oi) % 6], ts[(n + oi + 2) % 6], ts[(n + oi + 3) % 6]]
+                tsel = ts if k <= (4 if ctx.thorough else 3) else [ts[(n + oi) % 6], ts[(n + oi + 2) % 6], ts[(n + oi + 3) % 6]]
                 for t in tsel:
                     yield {'kind': 'grouper', 'x': xs, 'y': ys, 't': t, 'form': ['list', 'array', 'table'][(n + oi) % 3]}
             if n % 7 == 0:
@@ -856,7 +856,7 @@ def run(ctx):
     # scenes
     rng = ctx.rng
     n = 0
-    reps = 4 if ctx.thorough else 1
+    reps = 3 if ctx.thorough else 1
     for rep in range(reps):
         for typ, model, gmode in itertools.product(TYPES, MODELS, GROUPINGS):
             n += 1
